@@ -99,3 +99,18 @@ pub fn seek_rounding(inp: &str, out: &str) -> i32 {
     std::fs::write(out, serde_json::to_string(&res).unwrap()).expect("write");
     0
 }
+
+/// ISO dates of every 1 Muharram in 1600..2399 by the reference (tabular) calendar — the orchestrator aims
+/// terminal listings at the days around Hijri year changes.
+pub fn hijri_newyears(out: &str) -> i32 {
+    let mut v: Vec<String> = vec![];
+    for day in day_lo()..=day_hi() {
+        let d = from_ce(day);
+        let (_, _, m, dd) = crate::oracle::tabular(d);
+        if m == 1 && dd == 1 {
+            v.push(d2s(d));
+        }
+    }
+    std::fs::write(out, serde_json::to_string(&v).unwrap()).expect("write");
+    0
+}
